@@ -95,11 +95,45 @@ def table(srcdir="/repo/src"):
     return t
 
 
+PRIM_FILES = {
+    "event": ["sync/manual_reset_event.rs"],
+    "mutex": ["sync/mutex.rs"],
+    "semaphore": ["sync/semaphore.rs"],
+    "mpmc": ["channel/mpmc.rs", "channel/channel_future.rs"],
+    "oneshot": ["channel/oneshot.rs", "channel/oneshot_broadcast.rs", "channel/channel_future.rs"],
+    "state": ["channel/state_broadcast.rs", "channel/channel_future.rs"],
+    "timer": ["timer/timer.rs", "timer/clock.rs"],
+}
+
+
+def relevant(prop):
+    """files whose critical sections the models of this property's primitives are steps of"""
+    try:
+        from registry import PROPS
+        spec = PROPS[prop] if isinstance(PROPS, dict) else [x for x in PROPS if x.get("id") == prop][0]
+        fs = set()
+        from registry import RUNS
+        prims = set(spec.get("prims", []))
+        for r in RUNS:
+            if r["name"] in spec.get("runs", []):
+                prims.add(r["prim"])
+        for pr in prims:
+            fs.update(PRIM_FILES.get(pr, []))
+        return fs or None
+    except Exception:
+        return None
+
+
 def run(prop=None, tier="quick", seed=1):
     cur = table()
+    rel = relevant(prop) if prop else None
+    if rel:
+        cur = {k: v for k, v in cur.items() if k.split("::")[0] in rel}
     if not os.path.exists(BASE):
         return [dict(kind="atomic-audit", detail="baseline atomic_sections.json missing")], {}
     base = json.load(open(BASE))
+    if rel:
+        base = {k: v for k, v in base.items() if k.split("::")[0] in rel}
     probs = []
     for k in sorted(set(cur) | set(base)):
         if cur.get(k) != base.get(k):
